@@ -11,8 +11,8 @@
 // contracts alone).
 //
 // Abstract view: `nonempty()`, `lo()`, `hi()`, `has(r, c)` (absolute position inside), `at(r, c)` (value there).
-// Representation invariant `wf()`: corners ordered component-wise, spans representable in u32, and the buffer is empty
-// or holds exactly height * width cells (row-major).
+// Representation invariant `wf()`: corners ordered component-wise, and the buffer is empty or holds exactly
+// height * width cells (row-major); a span may be all 2^32 rows / columns (heights, widths and counts are usize).
 //
 // Values: the code produces defaults with `T::default()` + `Clone` and copies cells with `Clone`; for an arbitrary
 // `T` nothing relates a clone to its original.  Value clauses that involve cloned cells are therefore stated under the
@@ -20,7 +20,7 @@
 // parameter, not an assumption: it is proved for usize/u64/bool below and holds for Data, DataRef, String by their
 // derived/std impls (not checked here).  Shape clauses (wf, bounds, no-panic) hold for every T.
 //
-// TRUSTED (all visible below): 64-bit usize; Vec::shrink_to_fit keeps the contents; std::slice::Chunks as a cursor
+// TRUSTED (all visible below): 64-bit usize; a Vec of cells holds at most isize::MAX cells; Vec::shrink_to_fit keeps the contents; std::slice::Chunks as a cursor
 // (chunks / next); the contract of Range::range (external_body: its body uses chunks_mut/zip/clone_from_slice, outside
 // vstd; checked bounded by Kani harnesses range_window_*); one declared rewrite in from_sparse (map-closure loop header).
 // Bounded Kani (kani/range.rs, never counted as proved): range(), rows()/cells()/used_cells() + size_hint/next_back,
@@ -37,6 +37,15 @@ verus! {
 
 // TRUSTED: 64-bit target (usize is 8 bytes); on it a product of two u32-sized spans never saturates usize
 global size_of usize == 8;
+
+// TRUSTED (A-cap): std (Vec, "Guarantees"): "Vec will never allocate more than isize::MAX bytes"; `vec![x; n]` / reserve panic with
+// "capacity overflow" beyond that. For a cell type of non-zero size (Data, DataRef, String, integers -- zero-sized cell types are not
+// considered) a cell vector therefore never holds more than isize::MAX cells. This is what makes the saturated count of the
+// 2^32 x 2^32 rectangle (2^64 cells, `saturating_mul` == usize::MAX) a call that does not return instead of a malformed Range.
+#[verifier::external_body]
+pub broadcast proof fn axiom_cell_vec_len<T: CellType>(v: Vec<T>)
+    ensures #[trigger] v@.len() <= isize::MAX,
+{}
 
 // TRUSTED: Vec::shrink_to_fit only changes capacity (std doc: "Shrinks the capacity of the vector as much as possible")
 pub assume_specification<T, A: Allocator>[ Vec::<T, A>::shrink_to_fit ](v: &mut Vec<T, A>)
@@ -79,9 +88,9 @@ pub open spec fn dflt<T: CellType>() -> T { choose|d: T| call_ensures(T::default
 impl<T: CellType> Range<T> {
     pub closed spec fn h(&self) -> int { self.end.0 - self.start.0 + 1 }
     pub closed spec fn w(&self) -> int { self.end.1 - self.start.1 + 1 }
-    /// corners ordered component-wise and both spans representable in u32 (so that width()/height() do not overflow)
+    /// corners ordered component-wise (height and width are then between 1 and 2^32)
     pub closed spec fn spans_ok(&self) -> bool {
-        self.start.0 <= self.end.0 && self.start.1 <= self.end.1 && self.h() <= u32::MAX && self.w() <= u32::MAX
+        self.start.0 <= self.end.0 && self.start.1 <= self.end.1
     }
     /// representation invariant
     pub closed spec fn wf(&self) -> bool {
@@ -113,10 +122,6 @@ impl<T: CellType> Cell<T> {
     pub closed spec fn v(&self) -> T { self.val }
 }
 
-/// documented precondition of from_sparse: "sorted by row" as far as the code relies on it -- first/last row are min/max
-pub closed spec fn rows_sorted<T: CellType>(cs: Seq<Cell<T>>) -> bool {
-    forall|i: int| 0 <= i < cs.len() ==> cs[0].pos.0 <= (#[trigger] cs[i]).pos.0 <= cs[cs.len() - 1].pos.0
-}
 pub closed spec fn cell_at<T: CellType>(c: Cell<T>, r: int, co: int) -> bool { c.pos.0 == r && c.pos.1 == co }
 /// index of the last of the first k cells that sits at (r, co); -1 if none
 pub closed spec fn lastw<T: CellType>(cs: Seq<Cell<T>>, k: int, r: int, co: int) -> int
@@ -171,11 +176,16 @@ proof fn lemma_mul_mono(a: int, b: int, w: int)
     assert(a * w <= b * w) by (nonlinear_arith) requires a <= b, w >= 0;
 }
 
+/// a product of two spans (each at most 2^32) fits usize unless both are 2^32
 proof fn lemma_mul_u32(a: int, b: int)
-    requires 0 <= a <= 0xffff_ffff, 0 <= b <= 0xffff_ffff,
-    ensures 0 <= a * b <= 0xffff_ffff * 0xffff_ffff, a * b <= usize::MAX,
+    requires 0 <= a <= 0x1_0000_0000, 0 <= b <= 0x1_0000_0000, a <= 0xffff_ffff || b <= 0xffff_ffff,
+    ensures 0 <= a * b <= 0x1_0000_0000 * 0xffff_ffff, a * b <= usize::MAX,
 {
-    assert(a * b <= 0xffff_ffff * 0xffff_ffff) by (nonlinear_arith) requires 0 <= a <= 0xffff_ffff, 0 <= b <= 0xffff_ffff;
+    if a <= 0xffff_ffff {
+        assert(a * b <= 0xffff_ffff * 0x1_0000_0000) by (nonlinear_arith) requires 0 <= a <= 0xffff_ffff, 0 <= b <= 0x1_0000_0000;
+    } else {
+        assert(a * b <= 0x1_0000_0000 * 0xffff_ffff) by (nonlinear_arith) requires 0 <= a <= 0x1_0000_0000, 0 <= b <= 0xffff_ffff;
+    }
     assert(0 <= a * b) by (nonlinear_arith) requires 0 <= a, 0 <= b;
 }
 
@@ -200,6 +210,7 @@ proof fn lemma_idx(i: int, j: int, h: int, w: int)
         //# C05.new_default
         lawful::<T>() ==> forall|i: int, j: int| r.has(i, j) ==> r.at(i, j) == dflt::<T>(),
 //@@ body
+        broadcast use axiom_cell_vec_len;
         proof {
             let hh = end.0 - start.0 + 1; let ww = end.1 - start.1 + 1;
             lemma_mul_ge1(hh, ww);
@@ -314,7 +325,10 @@ proof fn lemma_idx(i: int, j: int, h: int, w: int)
         let ghost mut k: int = 0;
         proof {
             o.lemma_len_bound();
-            lemma_mul_u32(h0, w0); lemma_mul_u32(h1, w1); lemma_mul_u32(h1, w0); lemma_mul_u32(h0, w1);
+            // the old rectangle is stored (h0 * w0 cells); a grown side is shorter than 2^32 (ADDED precondition)
+            assert(h0 * w0 == o.inner@.len());
+            if p0 > o.end.0 { lemma_mul_u32(h1, w1); lemma_mul_u32(h1, w0); }
+            if p1 > o.end.1 { lemma_mul_u32(h1, w1); lemma_mul_u32(h0, w1); }
         }
 //@@ before /let len = \(absolute_position/
                 proof { lemma_mul_u32(p0 - self.end.0, self.sw()); }
@@ -348,7 +362,7 @@ proof fn lemma_idx(i: int, j: int, h: int, w: int)
 //@@ loop 0
                     invariant
                         *self == o, o.nonempty(), o.wf(), h0 == o.h(), w0 == o.w(), old_width == w0,
-                        width == w1, w1 > w0, w1 <= 0xffff_ffff, h0 <= 0xffff_ffff,
+                        width == w1, w1 > w0, w1 <= 0xffff_ffff, h0 <= 0x1_0000_0000,
                         empty@.len() == width - old_width,
                         lawful::<T>() ==> forall|x: int| 0 <= x < empty@.len() ==> empty@[x] == dflt::<T>(),
                         chunks_size(__it0) == w0 && 0 <= k <= h0 && k * w0 <= h0 * w0 && chunks_rem(__it0) == o.inner@.skip(k * w0)
@@ -458,10 +472,8 @@ proof fn lemma_idx(i: int, j: int, h: int, w: int)
     requires
         self.wf(),
         // (the source may be empty: Kani harness range_window_empty)
-        // precondition of Range::new (undocumented for `range`): corners ordered component-wise ...
+        // precondition of Range::new (undocumented for `range`): corners ordered component-wise
         start.0 <= end.0, start.1 <= end.1,
-        // ... and the u32 cell count of Range::new does not overflow
-        (end.0 - start.0 + 1) * (end.1 - start.1 + 1) <= u32::MAX,
     ensures
         //# C05.range_wf
         r.wf(),
@@ -480,7 +492,6 @@ proof fn lemma_idx(i: int, j: int, h: int, w: int)
 //@@ end
 //@@ fn src/lib.rs Range::from_sparse props=C05,C06 ret=r
 //@@ sig
-    requires rows_sorted(cells@),
     ensures
         //# C05.sparse_wf
         r.wf(),
@@ -495,33 +506,36 @@ proof fn lemma_idx(i: int, j: int, h: int, w: int)
         lawful::<T>() ==> forall|i: int, j: int| r.has(i, j) && lastw(cells@, cells@.len() as int, i, j) < 0 ==> r.at(i, j) == dflt::<T>(),
         //# C05.sparse_inside
         forall|k: int| 0 <= k < cells@.len() ==> r.has((#[trigger] cells@[k]).p().0 as int, cells@[k].p().1 as int),
-//@@ before /let row_start/
+//@@ before /let mut row_start/
             let ghost cs = cells@;
             let ghost n = cells@.len() as int;
-//@@ replace /for c in cells\.iter\(\)\.map\(\|c\| c\.pos\.1\) \{/ Verus cannot type a closure that is generic in T for Iterator::map (has_type of the closure value is missing, so vstd's map_postcondition never fires); `for c in xs.iter().map(|c| c.pos.1) {` is unfolded to `for __cell in xs.iter() { let c = __cell.pos.1;` (definition of Iterator::map + for)
+//@@ replace /for \(r, c\) in cells\.iter\(\)\.map\(\|c\| c\.pos\) \{/ Verus cannot type a closure that is generic in T for Iterator::map (has_type of the closure value is missing, so vstd's map_postcondition never fires); `for (r, c) in xs.iter().map(|c| c.pos) {` is unfolded to `for __cell in xs.iter() { let (r, c) = __cell.pos;` (definition of Iterator::map + for)
             for __cell in it: cells.iter()
                 invariant
                     cs == cells@, n == cs.len(), n > 0,
                     it.seq().len() == n, 0 <= it.index@ <= n,
                     forall|i: int| 0 <= i < n ==> *(#[trigger] it.seq()[i]) == cs[i],
+                    forall|i: int| 0 <= i < it.index@ ==> row_start <= (#[trigger] cs[i]).pos.0 <= row_end,
+                    it.index@ == 0 ==> row_start == u32::MAX && row_end == 0,
+                    it.index@ > 0 ==> exists|i: int| 0 <= i < it.index@ && (#[trigger] cs[i]).pos.0 == row_start,
+                    it.index@ > 0 ==> exists|i: int| 0 <= i < it.index@ && (#[trigger] cs[i]).pos.0 == row_end,
                     forall|i: int| 0 <= i < it.index@ ==> col_start <= (#[trigger] cs[i]).pos.1 <= col_end,
                     it.index@ == 0 ==> col_start == u32::MAX && col_end == 0,
                     it.index@ > 0 ==> exists|i: int| 0 <= i < it.index@ && (#[trigger] cs[i]).pos.1 == col_start,
                     it.index@ > 0 ==> exists|i: int| 0 <= i < it.index@ && (#[trigger] cs[i]).pos.1 == col_end,
-            { let c = __cell.pos.1;
-                proof { assert(__cell.pos.1 == cs[it.index@ as int].pos.1); }
-//@@ before /let cols = /
-            proof {
-                assert(cs[0].pos.0 <= cs[n - 1].pos.0);
-            }
+            { let (r, c) = __cell.pos;
+                proof { assert(__cell.pos == cs[it.index@ as int].pos); }
 //@@ before /let len = /
             proof {
-                lemma_mul_u32(rows as int, cols as int);
                 assert(cols * rows == rows * cols) by (nonlinear_arith);
                 lemma_mul_ge1(rows as int, cols as int);
             }
 //@@ after /v\.shrink_to_fit\(\);/
             proof {
+                // (A-cap) the cell vector exists, so the count was not saturated
+                broadcast use axiom_cell_vec_len;
+                assert(v@.len() <= isize::MAX);
+                assert(len == rows * cols);
                 assert(lawful::<T>() ==> forall|q: int| 0 <= q < len ==> v@[q] == dflt::<T>());
                 assert forall|i: int, j: int| row_start <= i <= row_end && col_start <= j <= col_end implies
                     0 <= #[trigger] ((i - row_start) * cols + (j - col_start)) < len by {
@@ -530,8 +544,8 @@ proof fn lemma_idx(i: int, j: int, h: int, w: int)
             }
 //@@ loop 1 it2
                 invariant
-                    cs == cells@, n == cs.len(), n > 0, rows_sorted(cs),
-                    row_start == cs[0].pos.0, row_end == cs[n - 1].pos.0,
+                    cs == cells@, n == cs.len(), n > 0,
+                    forall|i: int| 0 <= i < n ==> row_start <= (#[trigger] cs[i]).pos.0 <= row_end,
                     forall|i: int| 0 <= i < n ==> col_start <= (#[trigger] cs[i]).pos.1 <= col_end,
                     cols == col_end - col_start + 1, rows == row_end - row_start + 1,
                     len == rows * cols, v@.len() == len,
@@ -547,7 +561,7 @@ proof fn lemma_idx(i: int, j: int, h: int, w: int)
                 let ghost v0 = v@;
                 proof {
                     assert(c == cs[k]);
-                    assert(cs[0].pos.0 <= cs[k].pos.0 <= cs[n - 1].pos.0);
+                    assert(row_start <= cs[k].pos.0 <= row_end);
                     lemma_idx(row as int, col as int, rows as int, cols as int);
                 }
 //@@ after /\*v = c\.val;\s*\}/
@@ -612,7 +626,6 @@ fn witness_history<T: CellType>(v: T, v2: T, v3: T)
     assert(g5 == Some(&v3));
     let sz = r.get_size();
     assert(sz.0 == 4 && sz.1 == 5);
-    assert((6u32 - 2u32 + 1) * (2u32 - 2u32 + 1) <= u32::MAX) by (compute);
     let w = r.range((2, 2), (6, 2));
     assert(w.at(2, 2) == v && w.at(5, 2) == dflt::<T>());
     let e = Range::<T>::empty();
@@ -624,20 +637,27 @@ fn witness_from_sparse<T: CellType>(a: T, b: T, c: T)
     requires lawful::<T>(),
 {
     let mut cells: Vec<Cell<T>> = Vec::new();
+    // cells in any order (rows not ascending)
+    cells.push(Cell::new((4, 7), c));
     cells.push(Cell::new((3, 7), a));
     cells.push(Cell::new((3, 5), b));
-    cells.push(Cell::new((4, 7), c));
     proof {
         let cs = cells@;
-        assert(cs[0].pos == (3u32, 7u32) && cs[1].pos == (3u32, 5u32) && cs[2].pos == (4u32, 7u32));
-        assert(rows_sorted(cs));
+        assert(cs[0].pos == (4u32, 7u32) && cs[1].pos == (3u32, 7u32) && cs[2].pos == (3u32, 5u32));
         reveal_with_fuel(lastw, 4);
-        assert(lastw(cs, 3, 3, 7) == 0 && lastw(cs, 3, 4, 5) == -1);
+        assert(lastw(cs, 3, 3, 7) == 1 && lastw(cs, 3, 4, 5) == -1);
     }
     let r = Range::from_sparse(cells);
     assert(r.wf() && r.nonempty());
     assert(r.at(3, 7) == a);
     assert(r.has(4, 5) ==> r.at(4, 5) == dflt::<T>());
+}
+// a span of all 2^32 columns is representable
+fn witness_full_span<T: CellType>() {
+    let r = Range::<T>::new((7, 0), (7, u32::MAX));
+    assert(r.wf() && r.lo() == (7u32, 0u32) && r.hi() == (7u32, u32::MAX));
+    let w = r.width();
+    assert(w == 0x1_0000_0000);
 }
 
 } // verus!
